@@ -459,16 +459,22 @@ pub fn run_case(case: &Sx) -> (Sx, Sx, Sx) {
 pub fn main(a: &Args) {
     match a.extra.get(0).map(|s| s.as_str()) {
         Some("gen") => { write_lines(&format!("{}/cases.txt", a.out), &gen(a)); }
+        Some("worker") => {
+            worker_loop(|l| {
+                let mut c = Sx::parse(l);
+                let (o, e, x) = run_case(&c);
+                if let Sx::Lst(v) = &mut c { v.push(x); }
+                vec![c.to_string(), o.to_string(), e.to_string()]
+            });
+        }
         Some("run") => {
-            let lines = read_lines(&a.extra[1]);
+            let lines: Vec<String> = read_lines(&a.extra[1]).iter().map(|l| { let mut c = Sx::parse(l); if let Sx::Lst(v) = &mut c { v[1] = flags(); v.truncate(8); } c.to_string() }).collect();
+            let lim = vec![String::new(), timeout_obs().to_string(), "(extra timeout)".to_string()];
+            let rs = isolated_map("eg4", &lines, &lim);
             let mut cases = vec![]; let mut obs = vec![]; let mut extras = vec![];
-            for l in lines {
-                let mut c = Sx::parse(&l);
-                if let Sx::Lst(v) = &mut c { v[1] = flags(); v.truncate(8); }
-                let (o, e, sc) = run_case(&c);
-                obs.push(o.to_string()); extras.push(e.to_string());
-                if let Sx::Lst(v) = &mut c { v.push(sc); }
-                cases.push(c.to_string());
+            for (l, r) in lines.iter().zip(rs) {
+                if r[0].is_empty() { let mut c = Sx::parse(l); if let Sx::Lst(v) = &mut c { v.push(lst(vec![sym("sched")])); } cases.push(c.to_string()); } else { cases.push(r[0].clone()); }
+                obs.push(r[1].clone()); extras.push(r[2].clone());
             }
             write_lines(&format!("{}/cases.txt", a.out), &cases);
             write_lines(&format!("{}/impl.txt", a.out), &obs);
